@@ -88,6 +88,7 @@ var (
 	fKeep     = flag.Bool("keep", false, "keep the scratch directory")
 	fNoShrink = flag.Bool("noshrink", false, "skip minimisation")
 	fOutDir   = flag.String("replaydir", "", "where replay files go (default <verif>/replays)")
+	fOne      = flag.Int("one", -1, "debug: run this single run index with a dump of wire and invocation logs")
 )
 
 func env() []string {
@@ -580,6 +581,17 @@ func main() {
 	}
 	if *fSelftest {
 		os.Exit(doSelftest(pc, base))
+	}
+	if *fOne >= 0 {
+		bin := build(pc.Race)
+		cmd := exec.Command(bin, "-test.run", "^TestSim$", "-test.timeout", "0", "-prop", pc.ID, "-base", strconv.FormatUint(base, 10),
+			"-from", strconv.Itoa(*fOne), "-to", strconv.Itoa(*fOne+1), "-tier", *fTier, "-dump", "-scratch", filepath.Join(scratch, "fs"))
+		cmd.Dir = scratch
+		cmd.Env = env()
+		cmd.Stdout, cmd.Stderr = os.Stdout, os.Stderr
+		cmd.Run()
+		cleanup()
+		os.Exit(0)
 	}
 	os.Exit(doCheck(pc, base))
 }
